@@ -5,7 +5,7 @@
 # uses one shared target dir; prints a summary to /tmp/mut_<id>/out/confirm.txt
 id=$1
 wt=/tmp/mut_$id
-export CARGO_TARGET_DIR=/tmp/mut_shared_target
+export CARGO_TARGET_DIR=$wt/target
 cd $wt || exit 2
 out=$wt/out/confirm.txt
 echo "== $id confirm $(date)" > $out
@@ -17,4 +17,5 @@ git apply -R out/patch.diff >> $out 2>&1 || echo "REVERT FAILED" >> $out
 filter=$(python3 -c "import json;print(json.load(open('$wt/out/meta.json'))['demo_cmd'].split()[-1])")
 timeout 3000 cargo test --offline -p opcua --lib $filter 2>&1 | grep -E "^test result|^test .* (ok|FAILED)" | head -20 >> $out
 git apply out/patch.diff >> $out 2>&1
+rm -rf $wt/target
 echo "== done" >> $out
